@@ -263,6 +263,11 @@ func c09Mutations(cell c09Cell, a []byte, thorough bool) []c09Mut {
 			} else if inHot(p) {
 				hot = append(hot, p)
 			}
+			if n := len(hot); n > 0 && hot[n-1] >= 4 && hot[n-1] < 8 {
+				// pairs never touch the MessageSize field: it only decides where the
+				// receiver cuts the stream; all its single-bit flips are in the list above
+				hot = hot[:n-1]
+			}
 		}
 		for i := 0; i < len(hot); i++ {
 			for j := i + 1; j < len(hot); j++ {
@@ -1037,7 +1042,7 @@ func runC09() {
 	}
 	tierText := "one bit per byte position (bit = position mod 8) and all 8 bits in the header, padding and signature regions; OPN truncations at every length inside the headers, +-64 around the end of the security header and the last 64 bytes"
 	if thorough {
-		tierText = "all 8 bits of every byte; every truncation length; every two-byte modification (XOR masks 01, 80, ff on each byte) inside the header, padding and signature regions (OPN: first and last 16 bytes); OPN also with 4096-bit keys in SignAndEncrypt"
+		tierText = "all 8 bits of every byte; every truncation length; every two-byte modification (XOR masks 01, 80, ff on each byte) inside the header, padding and signature regions without the MessageSize field (OPN: first and last 16 bytes); OPN also with 4096-bit keys in SignAndEncrypt"
 	}
 	r.Rule("cells: 5 secured policies x {Sign, SignAndEncrypt} x receiver {server channel, client channel} x chunk kind {MSG, OPN}, RSA 2048; per cell a valid chunk is captured at a man-in-the-middle proxy between a real client and a real server channel and every mutation of the list is delivered instead: single-bit flips (" + tierText + "); truncation to every length with the original and with a fixed-up MessageSize; 1..16 (OPN: also RSA block size-1, block, block+1) appended bytes with and without fixed-up MessageSize; chunks protected with other keys (other channel, other channel with this channel's ids, earlier channel with the same ids = old nonces, reflected chunk of the opposite direction, forged with keys from other nonces, forged without protection). A case = (cell, mutation); every case is non-trivial (the bytes differ from every chunk the channel's keys produced); distinct by (cell, mutation parameters)")
 	r.Assume("append/original-size (intact chunk followed by stray bytes) cannot be told from an untouched chunk on a byte stream: there the intact chunk may be delivered and only the stray bytes must produce an error",
